@@ -1,17 +1,87 @@
-(* C09 — pooled nodes come back clean (cleanliness clause), for every put/get/GC history.
-   Model: Model/Pool.v instantiated with the pool probe table regenerated from the current source. *)
+(* C09 — returned values belong to the caller; pooled nodes come back clean.
+   Cleanliness clause: Model/Pool.v instantiated with the pool probe table.
+   Ownership clause: Model/Own.v instantiated with the release tables (Gen/OwnTable.v).
+   All tables are regenerated from the current source on every run. *)
 From Coq Require Import List NArith Bool.
-From GV Require Import Model.Pool Proofs.PoolP Gen.PoolTable Inst.Inst_C09.
+From GV Require Import Model.Pool Proofs.PoolP Gen.PoolTable Model.Own Proofs.OwnP Gen.OwnTable Inst.Inst_C09.
 Import ListNotations.
 
 (* every object handed out by a pool, after any history of releases of arbitrary (dirty) objects, gets and
    garbage collections, is fresh on every field except those listed as known findings *)
 Theorem C09_get_is_fresh_except :
   forall h, wf_hist pool_all h ->
-  forall ty o, In (ty, o) (run pool_cleared [] h) -> fresh_up_to pool_known ty o.
+  forall ty o, In (ty, o) (Pool.run pool_cleared [] h) -> fresh_up_to pool_known ty o.
 Proof.
   intros h Hwf. apply (get_is_fresh_except pool_all pool_cleared pool_known cleared_ok h []); [|exact Hwf].
   intros t y [].
 Qed.
 
 Print Assumptions C09_get_is_fresh_except.
+
+(* ---- ownership clause --------------------------------------------------------------------------
+   Histories: any interleaving of Alloc / Get / Write (tree builders: the parser, pool users), Release
+   (ReleaseAST, Put<X>Statement, PutExpression as the current code does them: table driven), Drop / DropAll
+   (garbage collection of pool slots), Observe; any number of trees.  wf_histb: builders write only objects
+   they obtained themselves, Get hands out only pooled objects, a release is started by the holder and
+   puts no object that is already in a pool. *)
+Notation own_run := (Own.run cur_pooled cur_container cur_descend cur_keeps cur_budget own_depth).
+Notation own_wf := (Own.wf_histb cur_pooled cur_container cur_descend cur_keeps cur_budget own_depth).
+
+(* every object has at most one holder: the pools never hold an object twice, no caller-held tree reaches
+   a pooled object, no object is reachable from trees of two different holders *)
+Theorem C09_no_double_ownership :
+  forall h, own_wf init h = true ->
+  let s := own_run init h in
+  NoDup (pool s) /\
+  (forall r t i, own s r = Live t -> reach (cont s) r i -> ~ In i (pool s)) /\
+  (forall r r' t t' i, own s r = Live t -> own s r' = Live t' ->
+                       reach (cont s) r i -> reach (cont s) r' i -> t = t').
+Proof. exact (no_double_ownership cur_pooled cur_container cur_descend cur_keeps cur_budget own_depth cur_keeps_false). Qed.
+
+Print Assumptions C09_no_double_ownership.
+
+(* a tree its holder has not released looks the same, stays the holder's and stays out of the pools,
+   whatever other holders, the release paths and the collector do afterwards *)
+Theorem C09_held_results_stable :
+  forall h1 h2 t r,
+  own_wf init (h1 ++ h2) = true -> Forall (fun o => actor o <> Some t) h2 ->
+  own (own_run init h1) r = Live t ->
+  (forall fuel, view fuel (cont (own_run init (h1 ++ h2))) r = view fuel (cont (own_run init h1)) r) /\
+  (forall i, reach (cont (own_run init h1)) r i ->
+             own (own_run init (h1 ++ h2)) i = Live t /\ ~ In i (pool (own_run init (h1 ++ h2)))).
+Proof. exact (held_results_stable_from_init cur_pooled cur_container cur_descend cur_keeps cur_budget own_depth cur_keeps_false). Qed.
+
+Print Assumptions C09_held_results_stable.
+
+(* releasing one tree never changes another live tree *)
+Theorem C09_release_does_not_touch_other_trees :
+  forall h t' r' t r,
+  own_wf init (h ++ [Release t' r']) = true -> t <> t' ->
+  own (own_run init h) r = Live t ->
+  (forall fuel, view fuel (cont (own_run init (h ++ [Release t' r']))) r = view fuel (cont (own_run init h)) r) /\
+  (forall i, reach (cont (own_run init h)) r i ->
+             own (own_run init (h ++ [Release t' r'])) i = Live t /\
+             ~ In i (pool (own_run init (h ++ [Release t' r'])))).
+Proof. exact (release_does_not_touch_other_trees cur_pooled cur_container cur_descend cur_keeps cur_budget own_depth cur_keeps_false). Qed.
+
+Print Assumptions C09_release_does_not_touch_other_trees.
+
+(* slices, strings and result structs: a result none of whose cells is written later reads the same *)
+Theorem C09_alias_free_results_stable :
+  forall ws m cells, disjointb cells ws = true -> read (wr_all m ws) cells = read m cells.
+Proof. exact alias_free_stable. Qed.
+
+Print Assumptions C09_alias_free_results_stable.
+
+(* the hypotheses are met by a concrete non-trivial history on the current tables: tree 0 = an AST
+   holding a SelectStatement with one column (an Identifier); tree 1 = a second AST; tree 0 is released
+   (all three objects go to the pools), a third builder obtains the pooled Identifier and writes it;
+   tree 1 is untouched. *)
+Example own_history_example :
+  let h := [Alloc 0 ex_ast; Alloc 0 ex_select; Alloc 0 ex_ident;
+            Write 0 1%N (mkNode ex_select 5%N [(ex_select_slot, 2%N)]); Write 0 0%N (mkNode ex_ast 0%N [(ex_ast_slot, 1%N)]);
+            Alloc 1 ex_ast; Observe 1 3%N; Release 0 0%N; Get 2 2%N; Write 2 2%N (mkNode ex_ident 9%N [])] in
+  own_wf init h = true /\
+  seteqb (pool (own_run init h)) [0%N; 1%N] = true /\
+  own (own_run init h) 2%N = Live 2 /\ own (own_run init h) 3%N = Live 1.
+Proof. vm_compute. repeat split. Qed.
